@@ -378,8 +378,10 @@ def load_known_findings(prop: str | None = None) -> list:
 # parallel replay
 
 
-def pmap(fn, items, *, chunksize: int | None = None, procs: int | None = None, maxtasks: int | None = 2000):
-    """Run fn over items in forked worker processes (recycled to avoid state leaks)."""
+def pmap(fn, items, *, chunksize: int | None = None, procs: int | None = None, maxtasks: int | None = 2000,
+         daemon: bool = True):
+    """Run fn over items in forked worker processes (recycled to avoid state leaks).
+    daemon=False: workers may start child processes themselves (the tool's own pool)."""
     items = list(items)
     if not items:
         return []
@@ -388,6 +390,10 @@ def pmap(fn, items, *, chunksize: int | None = None, procs: int | None = None, m
         return [fn(x) for x in items]
     ctx = mp.get_context("fork")
     cs = chunksize or max(1, min(200, len(items) // (procs * 4) or 1))
+    if not daemon:
+        from concurrent.futures import ProcessPoolExecutor
+        with ProcessPoolExecutor(max_workers=procs, mp_context=ctx) as ex:
+            return list(ex.map(fn, items, chunksize=cs))
     with ctx.Pool(procs, maxtasksperchild=max(1, (maxtasks or 10**9) // cs)) as pool:
         return pool.map(fn, items, chunksize=cs)
 
